@@ -44,6 +44,18 @@ class PkArrS(PkOneDyn[:]):
     pass
 
 
+class PkGridF(xo.String[2:1, 3:0]):  # dynamically sized items, two axes, Fortran axis order
+    pass
+
+
+class PkGrid3(xo.String[:2, 2:0, :1]):  # ... three axes in a cyclic axis order, dynamic extents
+    pass
+
+
+class PkNumF(xo.Float64[3:1, 2:2, 2:0]):  # numbers, cyclic axis order
+    pass
+
+
 class PkHybStatic(xo.HybridClass):
     _xofields = {"p": xo.Float64, "q": xo.Int64}
 
